@@ -68,6 +68,11 @@ class MetaBoolean(type):
 
 class _Boolean(_PrimitiveType, metaclass=MetaBoolean):
     def __init__(self, value=False):
+        if isinstance(value, str):
+            # same rule as _assign: bool("0") would be True
+            assert value in ("0", "1")
+            value = value == "1"
+
         self._value = bool(value)
 
     @property
